@@ -152,6 +152,9 @@ func init() {
 	reg("uWrapC", &utypes.UWrapC{Err: base})
 	reg("uWrapUC", &utypes.UWrapUC{Err: base})
 	reg("uWrapFull", &utypes.UWrapFull{Err: base})
+	reg("uRegWrap", &utypes.URegWrap{Err: base})
+	reg("uRegWrapFull", &utypes.URegWrapFull{Err: base})
+	reg("uRegMulti", &utypes.URegMulti{Errs: []error{base}})
 	reg("uAnnotWrap", &utypes.UAnnotWrap{Err: base})
 	reg("uKeyWrap", &utypes.UKeyWrap{Err: base})
 	reg("uMaybe", &utypes.UMaybe{})
